@@ -19,35 +19,36 @@ def opt(short, long, kinds, slot, mask=0):
 
 
 # ---- option tables: the six kinds with and without short forms, both passes, shared targets ----
-T_MAIN = [
-    opt('a', 'alpha', 'bool', 0, 0x01), opt('b', 'beta', 'bool|pp', 0, 0x02),
-    opt('', 'gamma', 'bool', 0, 0x80000000), opt('n', 'nu', 'bool', 1, 0x04), opt('o', 'omicron', 'bool', 1, 0x0a),
-    opt('i', 'int', 'int', 0), opt('', 'num', 'int|pp', 1),
-    opt('s', 'str', 'str', 0), opt('', 'name', 'str|dep', 1),
-    opt('l', 'list', 'args', 0),
-    opt('t', 'theme', 'abst', 0), opt('', 'abs', 'abst|pp', 1),
-    opt('c', 'count', 'cnt', 0), opt('', 'tally', 'cnt', 0),
+# (short, long, kinds, slot, mask)
+D_MAIN = [
+    ('a', 'alpha', 'bool', 0, 0x01), ('b', 'beta', 'bool|pp', 0, 0x02),
+    ('', 'gamma', 'bool', 0, 0x80000000), ('n', 'nu', 'bool', 1, 0x04), ('o', 'omicron', 'bool', 1, 0x0a),
+    ('i', 'int', 'int', 0, 0), ('', 'num', 'int|pp', 1, 0),
+    ('s', 'str', 'str', 0, 0), ('', 'name', 'str|dep', 1, 0),
+    ('l', 'list', 'args', 0, 0),
+    ('t', 'theme', 'abst', 0, 0), ('', 'abs', 'abst|pp', 1, 0),
+    ('c', 'count', 'cnt', 0, 0), ('', 'tally', 'cnt', 0, 0),
 ]
 # pre-parsed argument list, long-only argument list, no option without a short form before them
-T_PPLIST = [
-    opt('a', 'alpha', 'bool|pp', 2, 0x10), opt('l', 'list', 'args|pp', 1), opt('s', 'str', 'str|pp', 2),
-    opt('i', 'int', 'int', 3), opt('t', 'theme', 'abst', 2), opt('', 'rest', 'args', 2), opt('b', 'beta', 'bool', 2, 0x01),
+D_PPLIST = [
+    ('a', 'alpha', 'bool|pp', 2, 0x10), ('l', 'list', 'args|pp', 1, 0), ('s', 'str', 'str|pp', 2, 0),
+    ('i', 'int', 'int', 3, 0), ('t', 'theme', 'abst', 2, 0), ('', 'rest', 'args', 2, 0), ('b', 'beta', 'bool', 2, 0x01),
 ]
 # only options with a short form (the lone "-" takes another path in the unrepaired parser)
-T_SHORT = [
-    opt('a', 'alpha', 'bool', 0, 0xffffffff), opt('i', 'int', 'int', 0), opt('s', 'str', 'str', 0),
-    opt('l', 'list', 'args', 0), opt('t', 'theme', 'abst', 0), opt('c', 'count', 'cnt', 0),
+D_SHORT = [
+    ('a', 'alpha', 'bool', 0, 0xffffffff), ('i', 'int', 'int', 0, 0), ('s', 'str', 'str', 0, 0),
+    ('l', 'list', 'args', 0, 0), ('t', 'theme', 'abst', 0, 0), ('c', 'count', 'cnt', 0, 0),
 ]
 # odd but legal tables: NULL value pointers, names that are prefixes of each other, names differing in
 # case only, an empty long name, '-' and '=' as letters, combined type bits, no type bits
-T_ODD = [
-    opt('a', 'ab', 'bool', 0, 0x01), opt('A', 'abc', 'bool', 0, 0x02), opt('x', 'AB', 'bool', 0, 0x04),
-    opt('i', 'int', 'int', '-'), opt('t', 'theme', 'abst', '-'), opt('s', 'str', 'str', '-'), opt('l', 'list', 'args', '-'),
-    opt('=', '', 'bool', 1, 0x08), opt('-', 'a=b', 'str', 1), opt('m', 'mix', 'bool|int', 2, 0x10),
-    opt('z', 'zero', '', 0), opt('q', 'abq', 'abst|int', 1), opt('\xe9', 'caf\xe9', 'bool', 3, 0x20),
+D_ODD = [
+    ('a', 'ab', 'bool', 0, 0x01), ('A', 'abc', 'bool', 0, 0x02), ('x', 'AB', 'bool', 0, 0x04),
+    ('i', 'int', 'int', '-', 0), ('t', 'theme', 'abst', '-', 0), ('s', 'str', 'str', '-', 0), ('l', 'list', 'args', '-', 0),
+    ('=', '', 'bool', 1, 0x08), ('-', 'a=b', 'str', 1, 0), ('m', 'mix', 'bool|int', 2, 0x10),
+    ('z', 'zero', '', 0, 0), ('q', 'abq', 'abst|int', 1, 0), ('\xe9', 'caf\xe9', 'bool', 3, 0x20),
 ]
-T_EMPTY = []
-TABLES = dict(main=T_MAIN, pplist=T_PPLIST, short=T_SHORT, odd=T_ODD, empty=T_EMPTY)
+DESCR = dict(main=D_MAIN, pplist=D_PPLIST, short=D_SHORT, odd=D_ODD, empty=[])
+TABLES = dict((k, [opt(*d) for d in v]) for k, v in DESCR.items())
 
 # ---- token alphabets ----
 CORE = ['w', '-', '--', '-a', '-ab', '-ax', '-i', '-i5', '-s', '-l', '-t', '-x', 'false',
@@ -88,6 +89,43 @@ class C08(vlib.PropertyCheck):
         design_ref='DESIGN.md section 7, C08')
 
     # ------------------------------------------------------------------------------
+    # A tree that fails the corpus or a small sample fails thousands of generated cases, and every
+    # sanitizer abort or hang costs a harness restart.  build_impl() therefore runs the corpus and a
+    # sample of the generated cases first; if these already disagree with the model, gen() returns
+    # the sample only and the failing inputs found there are reported.
+    degraded = False
+    sample = None
+
+    def build_impl(self):
+        import os, random
+        # stack symbolisation makes a sanitizer abort ten times as expensive and is not used by
+        # vlib.classify_crash (process-local change: only this check's run is affected)
+        if 'symbolize=0' not in vlib.SAN_ENV['ASAN_OPTIONS']:
+            vlib.SAN_ENV['ASAN_OPTIONS'] += ':symbolize=0'
+        exe, log = vlib.build_impl(self.id.lower(), os.path.join(vlib.VERIF, 'harness', self.harness), **self.impl_kwargs)
+        self.degraded = False
+        model = os.path.join(vlib.BUILD, '%s_model' % self.family)
+        if exe and os.path.exists(model):
+            cases = []
+            cdir = os.path.join(vlib.VERIF, 'corpus', self.id)
+            if os.path.isdir(cdir):
+                for fn in sorted(os.listdir(cdir)):
+                    with open(os.path.join(cdir, fn)) as f:
+                        cases += [l.rstrip('\n') for l in f if l.strip() and not l.startswith('//')]
+            allc = self.gen_all('quick', random.Random(4711))
+            r = random.Random(4712)
+            self.sample = [allc[r.randrange(len(allc))] for _ in range(400)]
+            cases += self.sample
+            mo, io, det = vlib.run_pair(self, model, exe, cases, 'smoke')
+            if vlib.compare(self, cases, mo, io):
+                self.degraded = True
+        return exe, log
+
+    def gen(self, tier, rng):
+        if self.degraded:
+            return list(self.sample)
+        return self.gen_all(tier, rng)
+
     def settings(self, rng, pre, rm):
         allow = rng.choice([0, 1, 3, 3, 9, 255])
         ret = rng.choice([0, 0, 1])
@@ -99,7 +137,7 @@ class C08(vlib.PropertyCheck):
         return 'parse %s %s %s' % (self.settings(rng, pre, rm), ','.join(TABLES[tname]) or '-',
                                    ','.join(hx(a) for a in ['prog'] + list(toks)))
 
-    def gen(self, tier, rng):
+    def gen_all(self, tier, rng):
         cases = []
         quick = tier == 'quick'
         passes = [(0, 0), (0, 1), (1, 0), (1, 1)]
@@ -133,7 +171,9 @@ class C08(vlib.PropertyCheck):
             toks = [rng.choice(full) for _ in range(n)]
             pre, rm = rng.choice(passes + [(2, 0), (2, 1)])
             cases.append(self.case(rng, rng.choice(list(TABLES)), toks, pre, rm))
-        # 5. the helpers behind handle_arglist / handle_integer, against their sub-models
+        # 5. spelling lists against the ideal reading
+        cases += self.gen_spell_cases(tier, rng)
+        # 6. the helpers behind handle_arglist / handle_integer, against their sub-models
         walpha = ['a', 'b', ' ', '\t', '"', "'", '\\', '\xa0']
         for n in range(0, 5 if quick else 7):
             for t in itertools.product(walpha, repeat=n):
@@ -154,11 +194,120 @@ class C08(vlib.PropertyCheck):
             cases.append('strtol %s' % hx(s))
         return cases
 
+    # ---- spelling lists: rendered here, read back by the model driver, which answers with the
+    # ideal reading (Coq `ideal`) after checking `render` and the side conditions `sps_ok` ----
+    BOOLWORDS = ['1', 'on', 'true', 'yes', '0', 'off', 'false', 'no', 'TRUE', 'No', 'oFF']
+
+    def gen_spelling_list(self, rng, tname):
+        d = DESCR[tname]
+        def kinds(o): return set(o[2].split('|')) if o[2] else set()
+        flags = [o for o in d if not (kinds(o) & {'int', 'str', 'args', 'abst'})]
+        values = [o for o in d if kinds(o) & {'int', 'str', 'abst'} and o[3] != '-']
+        lists = [o for o in d if 'args' in kinds(o) and o[3] != '-']
+        bools = [o for o in d if 'bool' in kinds(o)]
+        def case_mix(name):
+            return ''.join(c.upper() if rng.random() < 0.2 else c for c in name)
+        def value_for(o):
+            k = kinds(o)
+            if 'int' in k:
+                return rng.choice(['5', '-7', '0x1f', '', '010', ' 12', '99999999999', 'x'])
+            if 'str' in k:
+                return rng.choice(['v', '', '-x', '--alpha', 'a=b', 'no', 'two words', '-'])
+            return rng.choice(['v', '', 'x-y', 'a b', '=', 'no'])           # abstract: must not start with '-'
+        n = rng.choice([1, 1, 2, 3, 4, 6])
+        sps = []      # (token, rendered args, is-long-bool-flag)
+        for pos in range(n):
+            last = pos == n - 1
+            c = rng.random()
+            if c < 0.18:
+                w = rng.choice(['w', 'word', '', '-', 'x y', 'a=b', 'false', '1', 'no', '\xe9'])
+                sps.append(('W:' + hx(w), [w], False, w))
+            elif c < 0.32 and [o for o in flags if o[0]]:
+                o = rng.choice([o for o in flags if o[0]])
+                sps.append(('F:%02x' % ord(o[0]), ['-' + o[0]], False, None))
+            elif c < 0.42 and [o for o in flags if o[0]]:
+                xs = ''.join(rng.choice([o for o in flags if o[0]])[0] for _ in range(rng.choice([1, 2, 3, 5])))
+                sps.append(('B:' + hx(xs), ['-' + xs], False, None))
+            elif c < 0.52 and [o for o in values if o[0]]:
+                o = rng.choice([o for o in values if o[0]])
+                v = value_for(o)
+                if v == '':
+                    v = 'q'
+                sps.append(('A:%02x:%s' % (ord(o[0]), hx(v)), ['-' + o[0] + v], False, None))
+            elif c < 0.62 and [o for o in values if o[0]]:
+                o = rng.choice([o for o in values if o[0]])
+                v = value_for(o)
+                sps.append(('S:%02x:%s' % (ord(o[0]), hx(v)), ['-' + o[0], v], False, None))
+            elif c < 0.72 and flags:
+                o = rng.choice(flags)
+                l = case_mix(o[1])
+                sps.append(('f:' + hx(l), ['--' + l], 'bool' in kinds(o), None))
+            elif c < 0.80 and values:
+                o = rng.choice(values)
+                l, v = case_mix(o[1]), value_for(o)
+                if rng.random() < 0.5:
+                    sps.append(('e:%s:%s' % (hx(l), hx(v)), ['--' + l + '=' + v], False, None))
+                else:
+                    sps.append(('s:%s:%s' % (hx(l), hx(v)), ['--' + l, v], False, None))
+            elif c < 0.88 and bools:
+                o = rng.choice(bools)
+                l, w = case_mix(o[1]), rng.choice(self.BOOLWORDS)
+                if rng.random() < 0.5:
+                    sps.append(('b:%s:%s' % (hx(l), hx(w)), ['--' + l, w], False, None))
+                else:
+                    sps.append(('e:%s:%s' % (hx(l), hx(w)), ['--' + l + '=' + w], False, None))
+            elif c < 0.93 and lists:
+                o = rng.choice(lists)
+                l, v = case_mix(o[1]), rng.choice(['a b c', '', 'one', '"a b" c', " x  'y z' ", 'a\\"b'])
+                sps.append(('e:%s:%s' % (hx(l), hx(v)), ['--' + l + '=' + v], False, None))
+            elif last and lists:
+                o = rng.choice(lists)
+                ws = [rng.choice(['w', '-a', '--alpha', '', 'x y', '-']) for _ in range(rng.choice([1, 2, 4]))]
+                if o[0] and rng.random() < 0.5:
+                    sps.append(('Rs:%02x:%s' % (ord(o[0]), ';'.join(hx(w) for w in ws)), ['-' + o[0]] + ws, False, None))
+                else:
+                    l = case_mix(o[1])
+                    sps.append(('Rl:%s:%s' % (hx(l), ';'.join(hx(w) for w in ws)), ['--' + l] + ws, False, None))
+            else:
+                sps.append(('W:' + hx('w'), ['w'], False, 'w'))
+        # side condition of LongFlag on a boolean: the next argument must not read as a boolean word
+        out = []
+        for k, sp in enumerate(sps):
+            if sp[2] and k + 1 < len(sps):
+                nxt = sps[k + 1][1][0]
+                if nxt.lower() in ('1', 'on', 'true', 'yes', '0', 'off', 'false', 'no'):
+                    out.append(('W:' + hx('sep'), ['sep'], False, 'sep'))
+                    continue
+            out.append(sp)
+        return out
+
+    def gen_spell_cases(self, tier, rng):
+        cases = []
+        for _ in range(6000 if tier == 'quick' else 150000):
+            tname = rng.choice(['main', 'main', 'pplist', 'short'])
+            sps = self.gen_spelling_list(rng, tname)
+            args = ['prog'] + [a for sp in sps for a in sp[1]]
+            pre, rm = rng.choice([(0, 0), (0, 1), (1, 0), (1, 1), (2, 0), (2, 1)])
+            cases.append('spell %s %s %s %s' % (self.settings(rng, pre, rm), ','.join(TABLES[tname]),
+                                               ','.join(hx(a) for a in args), ','.join(sp[0] for sp in sps)))
+        return cases
+
     def search_gen(self, tier, rng):
-        return self.gen('quick', rng)
+        if self.degraded:
+            return [self.sample[rng.randrange(len(self.sample))] for _ in range(200)] + self.gen_all('quick', rng)[:3000]
+        return self.gen_all('quick', rng)
 
     # level A: everything but the stale argv slots behind the first NULL
     def split(self, case, out):
+        if case.startswith('spell '):
+            # the ideal reading says nothing about the stale slots behind the first NULL
+            m = re.match(r'^(.* argv=)(.*)$', out)
+            if not m:
+                return out, ''
+            parts = m.group(2).split(',')
+            if 'N' in parts[1:]:
+                return m.group(1) + ','.join(parts[:parts.index('N', 1) + 1]), ''
+            return out, ''
         m = re.match(r'^(.* argv=)(.*)$', out)
         if not m:
             return out, ''
